@@ -277,22 +277,27 @@ Definition dec_val (s : list byte) : N := fold_left (fun acc b => acc * 10 + (b2
 
 Record num_lit := { nl_neg : bool; nl_int : list byte; nl_frac : list byte; nl_eneg : bool; nl_exp : list byte }.
 
+Definition nd_sign (s : list byte) : bool * list byte :=
+  match s with b :: r => if is b c_minus then (true, r) else (false, s) | [] => (false, s) end.
+Definition nd_frac (s : list byte) : list byte * list byte :=
+  match s with b :: r => if is b c_dot then span_digits r else ([], s) | [] => ([], s) end.
+Definition nd_exp (s : list byte) : bool * list byte :=
+  match s with
+  | b :: r => if is b c_e || is b c_E then
+                match r with
+                | sg :: r2 => if is sg c_minus then (true, fst (span_digits r2))
+                              else if is sg c_plus then (false, fst (span_digits r2))
+                              else (false, fst (span_digits r))
+                | [] => (false, [])
+                end
+              else (false, [])
+  | [] => (false, [])
+  end.
 Definition num_decompose (s : list byte) : num_lit :=
-  let '(neg, s) := match s with b :: r => if is b c_minus then (true, r) else (false, s) | [] => (false, s) end in
+  let '(neg, s) := nd_sign s in
   let '(i, s) := span_digits s in
-  let '(f, s) := match s with b :: r => if is b c_dot then span_digits r else ([], s) | [] => ([], s) end in
-  let '(eneg, x) :=
-    match s with
-    | b :: r => if is b c_e || is b c_E then
-                  match r with
-                  | sg :: r2 => if is sg c_minus then (true, fst (span_digits r2))
-                                else if is sg c_plus then (false, fst (span_digits r2))
-                                else (false, fst (span_digits r))
-                  | [] => (false, [])
-                  end
-                else (false, [])
-    | [] => (false, [])
-    end in
+  let '(f, s) := nd_frac s in
+  let '(eneg, x) := nd_exp s in
   {| nl_neg := neg; nl_int := i; nl_frac := f; nl_eneg := eneg; nl_exp := x |}.
 
 Definition num_mant (s : list byte) : Z :=
